@@ -22,6 +22,7 @@ import (
 	"os"
 	"os/exec"
 	"path/filepath"
+	"strconv"
 	"strings"
 	"sync"
 	"syscall"
@@ -104,6 +105,15 @@ func run(input string) string {
 		if err != nil {
 			return "BADINPUT"
 		}
+		// big=<n> hex2=<tail>: the file is hex ++ n bytes 'x' ++ hex2 (bodies above the 1 MiB chunk of readSized)
+		if kv["big"] != "" {
+			n, err1 := strconv.Atoi(kv["big"])
+			tail, err2 := hex.DecodeString(kv["hex2"])
+			if err1 != nil || err2 != nil || n < 0 || n > 8<<20 {
+				return "BADINPUT"
+			}
+			data = append(append(data, bytes.Repeat([]byte{'x'}, n)...), tail...)
+		}
 		if guard := ammoGuard(kv["fmt"], data); guard != "" {
 			if guard == "child" {
 				// the input goes through a file: a command-line argument is limited to 128 KiB
@@ -119,6 +129,26 @@ func run(input string) string {
 			return guard
 		}
 		return runAmmo(kv, data)
+	case "genjson":
+		data, err := hex.DecodeString(kv["hex"])
+		if err != nil {
+			return "BADINPUT"
+		}
+		if genjsonMaySpin(kv, data) && os.Getenv("C13_IN_CHILD") == "" {
+			f, err := os.CreateTemp("", "c13-case-*.txt")
+			if err != nil {
+				return "HARNESSERR " + err.Error()
+			}
+			defer os.Remove(f.Name())
+			_, _ = f.WriteString(input)
+			_ = f.Close()
+			return runChild("case", f.Name())
+		}
+		return runGenJSON(kv, data)
+	case "pfx":
+		return runPfx(kv)
+	case "conf":
+		return runConf(kv)
 	case "hdr":
 		return runHdr(kv)
 	case "psf":
@@ -174,6 +204,14 @@ func childMain(mode string, args []string) {
 		input := string(raw)
 		kv := drv.KV(input)
 		data, _ := hex.DecodeString(kv["hex"])
+		if kv["big"] != "" {
+			n, _ := strconv.Atoi(kv["big"])
+			tail, _ := hex.DecodeString(kv["hex2"])
+			if n >= 0 && n <= 8<<20 {
+				data = append(append(data, bytes.Repeat([]byte{'x'}, n)...), tail...)
+			}
+		}
+		_ = os.Setenv("C13_IN_CHILD", "1")
 		done := make(chan string, 1)
 		go func() {
 			defer func() {
@@ -181,12 +219,20 @@ func childMain(mode string, args []string) {
 					done <- "end=panic"
 				}
 			}()
+			if kv["k"] == "genjson" {
+				done <- runGenJSON(kv, data)
+				return
+			}
 			done <- runAmmo(kv, data)
 		}()
+		wait := 15 * time.Second
+		if kv["k"] == "genjson" {
+			wait = 10 * time.Second // driveProvider's own watchdog (8 s) answers first
+		}
 		select {
 		case o := <-done:
 			fmt.Println("OBS " + o)
-		case <-time.After(15 * time.Second):
+		case <-time.After(wait):
 			fmt.Println("OBS end=hang")
 		}
 		os.Exit(0)
@@ -282,6 +328,21 @@ func class(input, obs string) string {
 			return ""
 		}
 		k += ":" + kv["fmt"]
+		if kv["passes"] == "0" && kv["fmt"] != "grpcjson" {
+			k += ":multipass"
+		}
+	}
+	if k == "genjson" {
+		if kv["hex"] == "" && kv["passes"] != "0" {
+			return ""
+		}
+		k += ":p" + kv["passes"]
+	}
+	if k == "pfx" {
+		k += ":" + kv["fmt"]
+	}
+	if k == "conf" {
+		k += ":" + kv["field"]
 	}
 	if k == "scn" || k == "scnraw" || k == "scnw" {
 		k += ":" + kv["kind"] + ":" + kv["fmt"]
